@@ -126,6 +126,8 @@ type fileChecker struct {
 	names map[string]string // module hash -> module name
 	kinds map[string]string
 	next  int // index into Disk.Writes already checked
+	// retriesPossible: object-store faults are injected, a write may legitimately be committed twice (lost acknowledgement)
+	retriesPossible bool
 }
 
 func newFileChecker(pkg *PkgDef, output string, first uint64) *fileChecker {
@@ -178,7 +180,7 @@ func (fc *fileChecker) Check(pkg *PkgDef, ref *Ref, disk *Disk, perReqNode strin
 			if d := CompareStores(pkg, got, want, map[string]bool{name: true}); d != "" {
 				return "snapshot_content", fmt.Sprintf("full snapshot %s written by %s differs from a sequential execution up to block %d: %s", fname, w.Node, end, d)
 			}
-			if strings.HasPrefix(w.Node, "t1r") {
+			if strings.HasPrefix(w.Node, "t1r") && !fc.retriesPossible {
 				seenT1[w.Node+"|"+w.Key]++
 				if seenT1[w.Node+"|"+w.Key] > 1 {
 					return "snapshot_written_twice", fmt.Sprintf("tier1 %s wrote snapshot %s of %s twice in one request", w.Node, fname, name)
